@@ -79,8 +79,12 @@ PadMsgs(a) == IF EvOk(a) /\ ~msgs[a.id].pad THEN [msgs EXCEPT ![a.id].pad = TRUE
 ErrMsgs(a) == IF EvOk(a) /\ ~msgs[a.id].pad /\ ~msgs[a.id].err THEN [msgs EXCEPT ![a.id].err = TRUE] ELSE msgs
 
 TrSign == Step("Sign", "Sign.result", SignMsgs, SignOk)
-TrEstimate == Step("Estimate", "Estimate.result", EstMsgs, EstOk)
-TrEvidence == Step("Evidence", "Evidence.result", EvMsgs, EvOk)
+\* an accepted submission is what the tally counts for that validator from then on (its latest submission)
+TrEstimate == Step("Estimate", "Estimate.result", EstMsgs, EstOk) /\ LET e == Trace[l] IN
+  (e.res = "ok" => Report("C04.EstimateRecorded", e.args.id \in DOMAIN msgs' /\ msgs'[e.args.id].ests[e.args.v] = e.args.x))
+TrEvidence == Step("Evidence", "Evidence.result", EvMsgs, EvOk) /\ LET e == Trace[l] IN
+  (e.res = "ok" => Report("C04.LatestEvidenceCounts", e.args.id \in DOMAIN msgs' /\ msgs'[e.args.id].ev[e.args.v] = e.args.e
+                                                       /\ \A w \in Vals \ {e.args.v} : msgs'[e.args.id].ev[w] = msgs[e.args.id].ev[w]))
 TrSetPAD == Step("SetPAD", "SetPAD.result", PadMsgs, EvOk)
 TrSetErr == Step("SetErr", "SetErr.result", ErrMsgs, EvOk)
 
